@@ -1,7 +1,6 @@
 package task
 
 import (
-	"context"
 	"io"
 	"os"
 	"path/filepath"
@@ -69,13 +68,19 @@ type (
 		concurrencySemaphore chan struct{}
 		taskCallCount        map[string]*int32
 		mkdirMutexMap        map[string]*sync.Mutex
-		executionHashes      map[string]context.Context
+		executionHashes      map[string]*taskExecution
 		executionHashesMutex sync.Mutex
 		watchedDirs          *xsync.MapOf[string, bool]
 	}
 	TempDir struct {
 		Remote      string
 		Fingerprint string
+	}
+	// taskExecution is the single real execution of a deduplicated task
+	// (run: once / when_changed). Later callers wait for done and share err.
+	taskExecution struct {
+		done chan struct{}
+		err  error
 	}
 )
 
@@ -97,7 +102,7 @@ func NewExecutor(opts ...ExecutorOption) *Executor {
 		concurrencySemaphore: nil,
 		taskCallCount:        map[string]*int32{},
 		mkdirMutexMap:        map[string]*sync.Mutex{},
-		executionHashes:      map[string]context.Context{},
+		executionHashes:      map[string]*taskExecution{},
 		executionHashesMutex: sync.Mutex{},
 	}
 	e.Options(opts...)
